@@ -847,7 +847,7 @@ var c16DNSNames = []string{
 	"999.1.1.1", "hs.example.org", "x", "a1", "1a", "123", "1.2.3", "0x7f.0.0.1", "matrix-fed.example", "sub.sub.sub.example.net",
 }
 var c16OddNames = []string{ // DNS-char strings that are not domain names, and strings that are not server names at all
-	"a..b", "-a.b", "a.b.", ".", "..", "a.-b", ".a",
+	"a..b", "-a.b", "a.b.", ".", "..", "a.-b", ".a", ".:8448", "..:1", "a.b.:8448",
 	"a_b.example", "exa mple.com", "é.com", "", "http://example.com", "example.com/", "example.com:80/", "a/b", "a@b", "a:b", "a:b:80",
 	"example.com:", "example.com:80a", "example.com:-1", "example.com:+80", "example.com:65536", "example.com:99999999999999999999",
 	"[::1", "::1", "[::1]x", "[]", "[", "]", "[]:80", "[::1]:", "[::g]", "[::1]]", "[[::1]]", "::ffff:1.2.3.4", "::ffff:1.2.3.4:80", "1::",
@@ -1269,6 +1269,9 @@ func genResolve(o *Out, tier string, r *Rng) {
 		deleg := ""
 		if r.Chance(55) {
 			deleg = r.c16GenServerName()
+			if r.Chance(6) {
+				deleg = Pick(r, []string{".", ".:8448", "a.b.", "..", ":8448", "[]:1"}) // what a hostile well-known document may name
+			}
 			if deleg == name {
 				// self-delegation is harmless for the code as it is (no second lookup) but would recurse without
 				// bound -- a fatal stack overflow, not a recoverable panic -- if a change made it look again
